@@ -6,6 +6,7 @@ package main
 import (
 	"fmt"
 	"go/types"
+	"math"
 	"strings"
 
 	"golang.org/x/tools/go/ssa"
@@ -117,6 +118,35 @@ func (p *Path) prim(fn *ssa.Function, args []Value) Value {
 	case "vIteInt":
 		it := types.Typ[types.Int]
 		return termOrInt(tt.Ite(p.boolTerm(args[0]), p.toTerm(args[1], it), p.toTerm(args[2], it)), intInfo{64, true})
+	case "vFloatIsSpecial":
+		if f, ok := args[0].(float64); ok {
+			return math.IsNaN(f) || math.IsInf(f, 0)
+		}
+		return false
+	case "vEqFloat":
+		ft := types.Typ[types.Float64]
+		if !p.realMode {
+			return p.equals(ft, args[0], args[1])
+		}
+		return termOrBool(tt.Eq(p.toTerm(args[0], ft), p.toTerm(args[1], ft)))
+	case "vIteFloat":
+		c := p.boolTerm(args[0])
+		if c.IsConst() {
+			if c.C != 0 {
+				return args[1]
+			}
+			return args[2]
+		}
+		ft := types.Typ[types.Float64]
+		if af, ok := args[1].(float64); ok {
+			if bf, ok := args[2].(float64); ok && af == bf {
+				return af
+			}
+		}
+		if !p.realMode {
+			panic(unsupported("vIteFloat outside real mode"))
+		}
+		return tt.Ite(c, p.toTerm(args[1], ft), p.toTerm(args[2], ft))
 	case "vIteStr":
 		c := p.boolTerm(args[0])
 		if c.IsConst() {
